@@ -182,6 +182,21 @@ def judge(case) -> Outcome:
         except Exception as e:  # noqa: BLE001
             out.fail("c07.spec_regenerates", f"{tag}: part {path}: spec.get_model_matrix raised {type(e).__name__}: {str(e)[:150]}")
             return out
+        # ... and carries everything it needs: used by itself on other rows it must behave like the spec of the separate build
+        text = repr(case["spec"])
+        if len(kept) >= 4 and "lag(" not in text:
+            sub = df.iloc[kept[::2]]
+            try:
+                with quiet():
+                    r1 = spec.get_model_matrix(sub, context={})
+                    r2 = alone.model_spec.get_model_matrix(sub, context={})
+                if colnames(r1) != colnames(r2) or not same(dense(r1), dense(r2)):
+                    out.fail("c07.part_spec_incomplete", f"{tag}: part {path}: its spec, used alone on every other kept row, gives {colnames(r1)} / values that differ from the separately built part's spec on the same rows")
+                    return out
+                out.see("part_specs_replayed_alone")
+            except Exception as e:  # noqa: BLE001
+                out.fail("c07.part_spec_incomplete", f"{tag}: part {path}: its spec used alone on other rows raised {type(e).__name__}: {str(e)[:150]}")
+                return out
         out.see("parts_checked")
     # the whole structured spec regenerates the whole result
     try:
